@@ -45,10 +45,11 @@ static void Setup(World& w, int nx, int nc, const StructuredData& s1v, const Str
 static std::vector<std::unique_ptr<World>>& Worlds() {
   static std::vector<std::unique_ptr<World>> w;
   if (w.empty()) {
-    for (int k = 0; k < 3; ++k) w.emplace_back(std::make_unique<World>());
+    for (int k = 0; k < 4; ++k) w.emplace_back(std::make_unique<World>());
     Setup(*w[0], 2, 3, S({ Factory::TupleV({ 1, 1 }), Factory::TupleV({ 1, 2 }) }), S({ Factory::EmptySet(), Factory::SetV({ 1 }) }));
     Setup(*w[1], 1, 2, Factory::EmptySet(), S({ Factory::SetV({ 1 }) }));
     Setup(*w[2], 3, 1, S({ Factory::TupleV({ 2, 1 }), Factory::TupleV({ 3, 3 }), Factory::TupleV({ 1, 2 }) }), S({ Factory::SetV({ 1, 2 }), Factory::SetV({ 2, 3 }), Factory::SetV({ 3 }) }));
+    Setup(*w[3], 3, 2, S({ Factory::TupleV({ 1, 2 }), Factory::TupleV({ 2, 3 }) }), S({ Factory::SetV({ 1 }), Factory::SetV({ 2, 3 }) }));
   }
   return w;
 }
@@ -62,7 +63,9 @@ static bool CheckParse(const json& c, const json& rend, bool math, int spacing, 
   const auto t = rstext::Assemble(rend["t"], math, spacing);
   textOut = t.text;
   const json wit = { {"e", c["e"]}, {"text", t.text}, {"syntax", math ? "MATH" : "ASCII"}, {"spacing", spacing} };
-  Parser parser;
+  // one parser object serves every text of the run (as an application would use it): what it reports for a text must not
+  // depend on the texts parsed before
+  static Parser parser;
   ++r.checks;
   if (!parser.Parse(t.text, math ? Syntax::MATH : Syntax::ASCII)) { r.Violation("C06", "valid-rendering-rejected", wit); return false; }
   std::vector<std::pair<int, int>> ranges;
